@@ -569,15 +569,28 @@ func (c *Context) Sqrt(d, x *Decimal) (Condition, error) {
 	d.Exponent += int32(e / 2)
 	nc.Precision = c.Precision
 	nc.Rounding = RoundHalfEven
-	res := nc.round(d, d)
-	if d.Form == Finite && !d.IsZero() && res&(Subnormal|Overflow|Clamped) == 0 {
-		// approx is only close to the root: when the root lies next to a
-		// rounding boundary the rounding above can go the wrong way, and
-		// whether the result is exact cannot be read off approx. Compare
-		// squares with x exactly, as the final step of Hull and Abrham does.
-		res = sqrtCorrect(nc, d, x, res)
+	// approx is only close to the root: when the root lies next to a
+	// rounding boundary the rounding can go the wrong way, and whether the
+	// result is exact cannot be read off approx. Compare squares with x
+	// exactly, as the final step of Hull and Abrham does. This is done
+	// without regard to the exponent range, so that a rounding that went the
+	// wrong way just below a power of ten cannot turn into an overflow.
+	uc := *nc
+	uc.MaxExponent = MaxExponent
+	uc.MinExponent = MinExponent
+	var t Decimal
+	tres := uc.round(&t, d)
+	if t.Form == Finite && !t.IsZero() && tres&(Subnormal|Overflow|Clamped) == 0 {
+		tres = sqrtCorrect(&uc, &t, x, tres)
+		adj := int64(t.Exponent) + t.NumDigits() - 1
+		adjApprox := int64(d.Exponent) + d.NumDigits() - 1
+		if adj <= int64(c.MaxExponent) && adj >= int64(c.MinExponent) && adjApprox >= int64(c.MinExponent) {
+			d.Set(&t)
+			return nc.goError(tres)
+		}
 	}
-	return nc.goError(res)
+	// Outside the normal range the exponent range decides.
+	return nc.goError(nc.round(d, d))
 }
 
 // sqrtCorrect makes d the square root of x rounded half-even to
